@@ -135,6 +135,7 @@ RULES = {
         ("VariantPaths", "packages", [0, False, [], 7], "doc: packages <str> relative path"),
         ("VariantPaths", "repository", [0, False, []], "doc: repository <str> relative path"),
         ("Stage2", "mainimage", ["/abs/stage2.img", 5], "doc: mainimage relative path to Anaconda stage2 image"),
+        ("Stage2", "instimage", ["/abs/inst.img", 5], "doc: instimage relative path to Anaconda instimage (obsolete)"),
         ("Media", "discnum", ["1", 1.5], "doc: discnum <int>"),
         ("Media", "totaldiscs", ["2", 1.5], "doc: totaldiscs <int>"),
     ],
